@@ -21,6 +21,12 @@ from ._common import ConfigParserMissingSectionException, ConfigParserDuplicateE
 
 from ._multi_range_parser import multi_range_parser
 
+def _number(t, v):
+  # int() and float() also accept digit-group underscores ('1_0' is 10): Python source syntax, not a number of the input format
+  if t in (int, float) and "_" in v:
+    raise ValueError("invalid literal for {}(): '{}'".format(t.__name__, v))
+  return t(v)
+
 def _get_or_none(k, d, t):
   # Only consider options set in the section itself: .get() would also return an option of
   # the same name from the default section ([Variables]).
@@ -29,7 +35,7 @@ def _get_or_none(k, d, t):
     v = d[k]
   if not v is None:
     try:
-      v = t(v)
+      v = _number(t, v)
     except ValueError:
       msg = "Could not convert configuration option [{section_name}].{attr_name} into '{type}'. Value is = {value}".format(
         type=t.__name__, 
@@ -212,12 +218,12 @@ class _TableFormSection(object):
     y_string = section["y"]
 
     try:
-      x = [float(v) for v in x_string.split()]
+      x = [_number(float, v) for v in x_string.split()]
     except ValueError as e:
       raise ConfigParserException("Error converting value into a float whilst parsing the 'x' entry of '{}': {}".format(section_name, e.args[0]))
 
     try:
-      y = [float(v) for v in y_string.split()]
+      y = [_number(float, v) for v in y_string.split()]
     except ValueError as e:
       raise ConfigParserException("Error converting value into a float whilst parsing the 'y' entry of '{}': {}".format(section_name, e.args[0]))
 
@@ -233,7 +239,7 @@ class _TableFormSection(object):
     xy_string = section["xy"]
 
     try:
-      xy = [float(v) for v in xy_string.split()]
+      xy = [_number(float, v) for v in xy_string.split()]
     except ValueError as e:
       raise ConfigParserException("Error converting value into a float whilst parsing the 'xy' entry of '{}': {}".format(section_name, e.args[0]))
 
@@ -794,7 +800,8 @@ class ConfigParser(object):
       'lattice_type' : default}
 
     try:
-      converted = known_properties.get(property_name, default)(v)
+      convert = known_properties.get(property_name, default)
+      converted = convert(v) if convert is default else _number(convert, v)
     except ValueError:
       raise ConfigParserException("Error when parsing [Species] section. Could not convert the value of '{}' = '{}'".format(property_name, v))
     return converted
